@@ -182,6 +182,14 @@ func runJob(job *Job) (res *JobResult) {
 		finals = ex.Run(fn)
 		finals = append(finals, ex.Orphans()...)
 	}()
+	aborted := len(res.Inconclusive) > 0
+	seenUns := map[string]bool{}
+	for _, u := range ex.UnsupportedPaths {
+		if !seenUns[u] {
+			seenUns[u] = true
+			res.Inconclusive = append(res.Inconclusive, "on one path: "+u)
+		}
+	}
 	res.Finals = len(finals)
 	rng := rand.New(rand.NewSource(job.Seed + int64(job.JobIdx)*7919))
 	nWit := job.Spec.Witnesses
@@ -201,7 +209,7 @@ func runJob(job *Job) (res *JobResult) {
 			res.DeadPaths++
 		}
 	}
-	if len(res.Inconclusive) == 0 {
+	if !aborted {
 		for _, f := range finals {
 			dischargeState(ex, solver, f, job, res)
 		}
